@@ -23,6 +23,12 @@ from vf.pool import HarnessError, Pool, WorkerDied, WorkerOpError  # noqa: E402
 KNOWN_FILE = os.path.join(VERIF, "known_findings.json")
 REPLAY_DIR = os.path.join(VERIF, "replays")
 EVIDENCE_DIR = os.path.join(VERIF, "evidence")
+# sensitivity runs against a scratch copy of the library (tools/run_seeded_par.sh) write their evidence and new replay
+# files elsewhere, so that they cannot be mistaken for results about /repo
+OUT_DIR = os.environ.get("VF_OUT_DIR")
+NEW_REPLAY_DIR = os.path.join(OUT_DIR, "replays") if OUT_DIR else REPLAY_DIR
+if OUT_DIR:
+    EVIDENCE_DIR = os.path.join(OUT_DIR, "evidence")
 
 
 def h8(obj):
@@ -331,8 +337,8 @@ def merge(shard_stats):
 
 
 def write_replay(pid, sig, entry):
-    os.makedirs(REPLAY_DIR, exist_ok=True)
-    path = os.path.join(REPLAY_DIR, "%s-%s.json" % (pid, h8(sig)))
+    os.makedirs(NEW_REPLAY_DIR, exist_ok=True)
+    path = os.path.join(NEW_REPLAY_DIR, "%s-%s.json" % (pid, h8(sig)))
     json.dump({"property": pid, "sig": sig, "case": entry[1], "failure": entry[2], "origin": entry[3]},
               open(path, "w"), indent=1, sort_keys=True)
     return path
@@ -353,12 +359,26 @@ def parent_main(pid, tier, seed):
             out = os.path.join(tmp, "shard%d.json" % i)
             p = subprocess.Popen([sys.executable, "-m", "vf.run", "--shard", pid, tier, str(seed), str(i),
                                   str(nshards), out], cwd=VERIF, env=env,
-                                 stdout=subprocess.DEVNULL, stderr=open(os.path.join(tmp, "err%d" % i), "w"))
+                                 stdout=subprocess.DEVNULL, stderr=open(os.path.join(tmp, "err%d" % i), "w"),
+                                 start_new_session=True)
             procs.append((p, out, i))
         shard_stats = []
         errors = []
+        timed_out = []
+        # a shard gets its generation budget, the same again for minimising, and a fixed allowance; then it is killed and
+        # what it explored is not counted (inconclusive for that shard - never a violation, never a pass claimed for it)
+        limit = t0 + 2 * b.get("seconds", 60) + (240 if tier == "quick" else 900)
         for p, out, i in procs:
-            p.wait()
+            try:
+                p.wait(timeout=max(1.0, limit - time.time()))
+            except subprocess.TimeoutExpired:
+                try:
+                    os.killpg(p.pid, 9)
+                except OSError:
+                    p.kill()
+                p.wait()
+                timed_out.append(i)
+                continue
             if not os.path.exists(out):
                 errors.append("shard %d produced no result (rc=%s): %s" % (
                     i, p.returncode, open(os.path.join(tmp, "err%d" % i)).read()[-2000:]))
@@ -373,9 +393,20 @@ def parent_main(pid, tier, seed):
             for e in errors[:3]:
                 print(e)
             return 2
+        if timed_out and not shard_stats:
+            print("HARNESS-ERROR property=%s every shard exceeded its time limit" % pid)
+            return 2
         m = merge(shard_stats)
+        if timed_out:
+            m.extra["shards_timed_out(inconclusive, not counted)"] = timed_out
+            print("INCONCLUSIVE shards %s exceeded the time limit and were stopped; their cases are not counted" % timed_out)
     finally:
         shutil.rmtree(tmp, ignore_errors=True)
+        for p, _, _ in procs:
+            try:
+                os.killpg(p.pid, 9)          # whatever a shard left behind (workers of a killed shard)
+            except OSError:
+                pass
 
     known = Known(pid)
     ctx = Ctx(pid, tier, seed)
